@@ -333,6 +333,50 @@ def install(eng: Any) -> None:
         ("_get_year_month_day_from_year_and_day_of_year", m_split),
     ):
         eng.func_models[vars(cls)[name]] = mdl
+    # _set_year / _add_months / _months_between: interface contracts (results are functions of the arguments)
+    SY = [z3.Function(f"SETYEAR_{k}", I, I, I, I, I, I) for k in ("m", "d")]
+    AM = [z3.Function(f"ADDMONTHS_{k}", I, I, I, I, I, I) for k in ("y", "m", "d")]
+    AM_OK = z3.Function("ADDMONTHS_ok", I, I, I, I, I, z3.BoolSort())
+    MB = z3.Function("MONTHSBETWEEN", I, I, I, I, I, I, I, I)
+
+    def comps(o: Any) -> tuple[Any, Any, Any]:
+        return tuple(eng.get_attr(o, n) for n in ("_year", "_month", "_day"))  # type: ignore[return-value]
+
+    def m_set_year(eng: Any, self_: Any, ymd: Any, year: Any) -> Any:
+        ac = cal_of(self_)
+        y, m, d = comps(ymd)
+        eng.oblige(And(ac.valid_date(y, m, d), year >= ac.min_year, year <= ac.max_year), "CAL.pre._set_year: valid date, target year in range", kind="callee-pre", site=eng.cur_site())
+        args = [_t(ac.cid), _t(y), _t(m), _t(d), _t(year)]
+        m2, d2 = sym.mk_int(SY[0](*args)), sym.mk_int(SY[1](*args))
+        ac.touch_month(eng, year, m2)
+        eng.assume(And(m2 >= 1, m2 <= miy(ac.cid, year), d2 >= 1, d2 <= dim(ac.cid, year, m2)))
+        return packmodel.mk_ymd(eng, year, m2, d2)
+
+    def m_add_months(eng: Any, self_: Any, ymd: Any, months: Any) -> Any:
+        ac = cal_of(self_)
+        y, m, d = comps(ymd)
+        eng.oblige(ac.valid_date(y, m, d), "CAL.pre._add_months: valid date", kind="callee-pre", site=eng.cur_site())
+        args = [_t(ac.cid), _t(y), _t(m), _t(d), _t(months)]
+        ok = sym.mk_bool(AM_OK(*args))
+        if not eng.truth(ok):
+            eng.raise_(OverflowError, "Date computation would overflow calendar bounds.")
+        y2, m2, d2 = (sym.mk_int(f(*args)) for f in AM)
+        ac.touch_month(eng, y2, m2)
+        eng.assume(ac.valid_date(y2, m2, d2))
+        return packmodel.mk_ymd(eng, y2, m2, d2)
+
+    def m_months_between(eng: Any, self_: Any, start: Any, end: Any) -> Any:
+        ac = cal_of(self_)
+        y1, m1, d1 = comps(start)
+        y2, m2, d2 = comps(end)
+        eng.oblige(And(ac.valid_date(y1, m1, d1), ac.valid_date(y2, m2, d2)), "CAL.pre._months_between: valid dates", kind="callee-pre", site=eng.cur_site())
+        return sym.mk_int(MB(_t(ac.cid), _t(y1), _t(m1), _t(d1), _t(y2), _t(m2), _t(d2)))
+
+    eng.func_models[vars(cls)["_set_year"]] = m_set_year
+    eng.func_models[vars(cls)["_add_months"]] = m_add_months
+    eng.func_models[vars(cls)["_months_between"]] = m_months_between
+    eng.cal_funcs = {"SETYEAR": SY, "ADDMONTHS": AM, "ADDMONTHS_ok": AM_OK, "MONTHSBETWEEN": MB}
+
     # compare: the base class body is real code; the abstract calculator overrides it with the contract
     if "compare" not in vars(cls):
         def compare(self, lhs, rhs):  # pragma: no cover - never executed
